@@ -93,6 +93,9 @@ def gen_cases(rng, tier, scale):
         [('pi', 1), ('regs', 'b', 'B2 {{v}}'), ('regs', 'a', '  {{> b}}\n'), ('pi', 0), ('regs', 'c', '  {{> b}}\n'), ('clone',), ('sel', 1), ('pi', 1)],
         [('dev', 1), ('fw', 'f1', 'A1'), ('regf', 'a', 'f1'), ('regs', 'a', 'B2 {{v}}'), ('fw', 'f1', 'C3{{#if v}}y{{/if}}'), ('dev', 0), ('dev', 1)],
         [('dev', 1), ('fw', 'f3', '{{#if}'), ('regf', 'a', 'f3'), ('fw', 'f3', 'A1'), ('regf', 'a', 'f3'), ('fw', 'f3', '{{#if}'), ('dev', 0)],
+        # a precompiled Template registered over a file-backed name ends the file tracking, like a string registration
+        [('dev', 1), ('fw', 'f1', 'A1'), ('regf', 'a', 'f1'), ('regt', 'a', 'C3{{#if v}}y{{/if}}'), ('fw', 'f1', 'B2 {{v}}'), ('fd', 'f1')],
+        [('dev', 1), ('fw', 'f1', 'B2 {{v}}'), ('regf', 'b', 'f1'), ('regs', 'a', '  {{> b}}\n'), ('regt', 'b', 'A1'), ('fw', 'f1', 'C3{{#if v}}y{{/if}}')],
         # a file-registered template reached as a partial of a string template / of another file template follows its file
         [('dev', 1), ('fw', 'f1', 'B2 {{v}}'), ('regf', 'b', 'f1'), ('regs', 'a', 'A1\n  {{> b}}\nZ'), ('fw', 'f1', 'C3{{#if v}}y{{/if}}')],
         [('dev', 1), ('fw', 'f1', 'B2 {{v}}'), ('regf', 'b', 'f1'), ('fw', 'f2', '  {{> b}}\n'), ('regf', 'c', 'f2'), ('fw', 'f1', 'A1'), ('dev', 0), ('dev', 1)],
@@ -103,6 +106,8 @@ def gen_cases(rng, tier, scale):
         [('dev', 1), ('regs', 'b', 'B2 {{v}}\nL2\n'), ('fw', 'f1', 'A1\n  {{> b}}\nZ'), ('regf', 'a', 'f1'), ('pi', 1), ('fw', 'f2', 'A1\n  {{> b}}\nZ'), ('regf', 'c', 'f2'), ('dev', 0)],
         [('pi', 1), ('regs', 'b', 'B2 {{v}}\nL2\n'), ('fw', 'f1', 'A1\n  {{> b}}\nZ'), ('regf', 'a', 'f1'), ('dev', 1), ('regf', 'c', 'f1'), ('clone',), ('sel', 1), ('pi', 0), ('regf', 'a', 'f1')],
     ]
+    for k, sk in enumerate(SK):           # every skeleton once as written, whatever the seed
+        cases.append({'line': to_line(f'sk{k}', list(sk)), 'ops': list(sk), 'kind': 'history', 'tags': ['scenario-plain']})
     m = (120 if tier == 'quick' else 2000) * scale
     for k in range(m):
         ops = list(rng.choice(SK))
